@@ -424,6 +424,23 @@ class Registry(dict):
   """A dict subclass without an __init__ of its own (inspect.signature() of it fails)."""
 
 
+class CatchAllInitBase:
+  """A framework-style base class whose __init__ takes anything."""
+
+  def __init__(self, *args, **kwargs):
+    del args, kwargs
+
+
+class NewTaggedOverInit(CatchAllInitBase, RecObj):
+  """Constructed by its OWN annotated __new__ (first in the MRO); __init__ is inherited."""
+
+  def __new__(cls, a: Annotated[Any, _tags.TagA] = 'na', b: Annotated[Any, _tags.TagB] = 'nb',
+              c=None):
+    self = super().__new__(cls)
+    self._record({'a': a, 'b': b, 'c': c})
+    return self
+
+
 def make_default_variant(d):
   """Function objects created by ONE nested def (one code object) whose defaults differ."""
 
